@@ -19,6 +19,9 @@ func init() {
 			ruleAllocBounds(p, r, func(fn *ssa.Function) bool { return wire(fn) || bu(fn) }, "wire+btcutil")
 			r.need("alloc-bound", 30)
 			ruleMessageRegistry(p, r)
+			ruleVersionGates(p, r, wirePkg)
+			ruleCodecPairs(p, r, wirePkg, [][2]string{{"BtcEncode", "BtcDecode"}, {"Serialize", "Deserialize"}, {"btcEncode", "btcDecode"}})
+			r.need("version-gate", 5)
 		},
 	})
 }
